@@ -392,6 +392,14 @@ class Engine(
                 # operands are only Selects if they need to be subqueries.
                 new_lhs, new_lhs_needs_projection = lhs.strip()
                 new_rhs, new_rhs_needs_projection = rhs.strip()
+                # Stripping a Projection re-exposes the columns it had dropped;
+                # that is only safe if the other operand does not provide a
+                # column of the same name (the join would take it from the
+                # wrong operand).
+                if (new_lhs.columns - lhs.columns) & new_rhs.columns:
+                    new_lhs, new_lhs_needs_projection = lhs, False
+                if (new_rhs.columns - rhs.columns) & new_lhs.columns:
+                    new_rhs, new_rhs_needs_projection = rhs, False
                 if new_lhs_needs_projection or new_rhs_needs_projection:
                     projection = Projection(frozenset(lhs.columns | rhs.columns))
                 else:
